@@ -342,6 +342,7 @@ func report(p *Prog, prop, tier string, seed int, results []*FuncResult, loadT, 
 		if f := kf.match(prop, o.Name); f != nil {
 			fmt.Printf("KNOWN-FINDING: property=%s %s %s\n", prop, o.Name, f.What)
 			kfSeen = append(kfSeen, o.Name)
+			total-- // a listed finding is reported separately and is not part of the proved set
 			continue
 		}
 		violations++
